@@ -3,9 +3,9 @@ import Copia.Model.Plan
 # Model of `incremental.rs` (`run_local` / `run_remote`): one recursive one-way sync run
 
 A tree maps a relative path to an entry: opaque content id, size, modification time split into whole
-seconds (`mt`, what the quick check reads: `floor`) and a sub-second part (`ns`). A transfer delivers
+seconds (`mt`, what the quick check reads: `floor`, negative before 1970) and a sub-second part (`ns`). A transfer delivers
 the source's content and sets the destination's mtime to the source's **whole seconds** (all three
-writers do that: `set_local_mtime`, `touch -d @secs`). Pre-epoch mtimes are outside the domain.
+writers do that: `set_local_mtime`, `touch -d @secs`).
 
 The three directions share this semantics; what differs (remote commands, quoting, staging) is tied
 by the black-box correspondence. Transfers run as concurrent tasks: the model applies them in list
